@@ -153,6 +153,29 @@ def handleCreate (j : Json) : Json :=
       ("lactole", match r.row with | some row => Json.num row.lactole | none => Json.null),
       ("recipe", recipeToJson r.recipe)]
 
+def namesTypes (j : Json) : List (List Char) × List Nat :=
+  let names : List (List Char) := match j.getObjVal? "names" with
+    | .ok (Json.arr a) => a.toList.map (fun x => match x with | Json.str s => s.toList | _ => [])
+    | _ => []
+  let types : List Nat := match j.getObjVal? "types" with
+    | .ok (Json.arr a) => a.toList.map (fun x => (x.getNat?.toOption).getD 0)
+    | _ => []
+  (names, types)
+
+def handleOpenForm (j : Json) : Json :=
+  let (names, types) := namesTypes j
+  let chain := (j.getObjValAs? Nat "chain").toOption.getD 0
+  match Basic.openFormText names types chain with
+  | some s => Json.mkObj [("kind", "ok"), ("smiles", charsToJson s)]
+  | none => Json.mkObj [("kind", "raises")]
+
+def handleExtension (j : Json) : Json :=
+  let (names, types) := namesTypes j
+  let c := (j.getObjValAs? Nat "c_count").toOption.getD 0
+  match Basic.extension names types c with
+  | some s => Json.mkObj [("kind", "ok"), ("extension", charsToJson s)]
+  | none => Json.mkObj [("kind", "raises")]
+
 def handleReact (j : Json) : Json :=
   let str (k : String) := ((j.getObjValAs? String k).toOption.getD "").toList
   let nat (k : String) := (j.getObjValAs? Nat k).toOption.getD 0
@@ -190,6 +213,8 @@ def handle (line : String) : Json :=
     | some "cli" => handleCli j
     | some "gate" => handleGate j
     | some "create" => handleCreate j
+    | some "openform" => handleOpenForm j
+    | some "extension" => handleExtension j
     | some "merge" => handleMerge j
     | some "observed" => handleObserved j
     | some "react" => handleReact j
